@@ -551,6 +551,17 @@ func TestC10_ValidityWindow(t *testing.T) {
 		for _, au := range auths {
 			au.set(tsa.Valid, attested)
 		}
+		// one run in six: the "authority" signs its tokens with a certificate that is not a
+		// time-stamping certificate (same issuer, code-signing usage only); such a token
+		// must never establish the signing time
+		impostor := !noTS && rapid.IntRange(0, 5).Draw(t, "impostor_authority") == 0
+		if impostor {
+			for _, au := range auths {
+				genuine := au.a.Cert
+				au.a.Cert = env.Inter.Issue(au.a.Key.Public(), keys.LeafOpts{CN: "c10 not a time-stamping certificate", EKU: []x509.ExtKeyUsage{x509.ExtKeyUsageCodeSigning}})
+				defer func(a *tsa.Authority, c *x509.Certificate) { a.Cert = c }(au.a, genuine)
+			}
+		}
 		p := filepath.Join(dir, a.Name)
 		os.WriteFile(p, a.Data, 0o644)
 		flags := map[string]string{}
@@ -566,8 +577,12 @@ func TestC10_ValidityWindow(t *testing.T) {
 		if noTS {
 			want = !now.Before(nb) && !now.After(na)
 		}
+		if impostor {
+			want = false
+			where += "/impostor-authority"
+		}
 		desc := map[string]any{"format": format, "key": key, "not_before": nb, "not_after": na, "attested": attested, "where": where, "timestamped": !noTS, "expect_valid": want}
-		nt := strings.HasPrefix(where, "edge") || noTS
+		nt := strings.HasPrefix(where, "edge") || noTS || impostor
 		rec.Case(fmt.Sprintf("win|%s|%s|%v|%v|%v|%v", format, key, nb, na, attested, noTS), fmt.Sprintf("window/%s/ts=%v", where, !noTS), nt)
 		if nt {
 			rec.Sample("window/"+where, desc)
@@ -579,6 +594,9 @@ func TestC10_ValidityWindow(t *testing.T) {
 		}
 		if !want && verr == nil {
 			evid.SaveCase("TestC10_ValidityWindow", desc)
+			if impostor {
+				t.Fatalf("signature verifies on the strength of a token signed by a certificate without the time-stamping usage\n %v", desc)
+			}
 			t.Fatalf("signature verifies although the %s lies outside the signer certificate's lifetime\n %v", map[bool]string{true: "current time", false: "attested time"}[noTS], desc)
 		}
 	})
